@@ -493,23 +493,36 @@ builtin_appname(spif_charptr_t param)
 
 /* spifconf_shell_expand() takes care of shell variable expansion, quote conventions,
    calling of built-in functions, etc.                                -- mej */
+static spif_charptr_t spifconf_shell_expand_into(spif_charptr_t s, spif_charptr_t newbuff);
+
 spif_charptr_t
 spifconf_shell_expand(spif_charptr_t s)
+{
+    spif_charptr_t newbuff, ret;
+
+    ASSERT_RVAL(s != NULL, (spif_charptr_t) NULL);
+
+    /* The scratch buffer lives on the heap:  every nested %call recurses into this
+       function, and a CONFIG_BUFF-sized array per level overflowed the stack at a
+       nesting depth of about 400 (a 2.5 kB line). */
+    newbuff = (spif_charptr_t) MALLOC(CONFIG_BUFF);
+    ret = spifconf_shell_expand_into(s, newbuff);
+    FREE(newbuff);
+    return ret;
+}
+
+static spif_charptr_t
+spifconf_shell_expand_into(spif_charptr_t s, spif_charptr_t newbuff)
 {
     register spif_charptr_t tmp;
     register spif_charptr_t pbuff = s, tmp1;
     register spif_uint32_t j, k, l = 0;
-    spif_char_t newbuff[CONFIG_BUFF];
     spif_uint8_t in_single = 0, in_double = 0;
     spif_uint32_t cnt1 = 0, cnt2 = 0;
     const spif_uint32_t max = CONFIG_BUFF - 1;
     spif_charptr_t Command, Output, EnvVar;
 
     ASSERT_RVAL(s != NULL, (spif_charptr_t) NULL);
-
-#if 0
-    newbuff = (spif_charptr_t) MALLOC(CONFIG_BUFF);
-#endif
 
     for (j = 0; *pbuff && j < max; pbuff++, j++) {
         switch (*pbuff) {
@@ -744,9 +757,6 @@ spifconf_shell_expand(spif_charptr_t s)
              strlen((char *) newbuff), j));
 
     strcpy((char *) s, (char *) newbuff);
-#if 0
-    FREE(newbuff);
-#endif
     return (s);
 }
 
